@@ -28,6 +28,11 @@ def gen_arb(rng, tier, idx=None, soak_in_quick=True):
         # behind the scenes (a watchdog, a fairness time-out) needs tens of thousands of cycles to show
         soak = "soak_unanswered" if idx % 2 else "soak_burst"
         n = rng.choice([2, 3])
+    quiet = None
+    if idx is not None and idx % 40 == 7:
+        # a long quiet stretch in the middle of traffic: nobody requests for more than 2**10 (sometimes 2**12) cycles
+        start = rng.randint(50, 200)
+        quiet = [start, start + rng.choice([1100, 1300, 2100, 4200])]
     dw = rng.choice([8, 16, 32, 64])
     gran = rng.choice([g for g in (8, 16, 32, 64) if g <= dw])
     afeat = [f for f in ALL_FEATURES if rng.random() < 0.5]
@@ -66,6 +71,11 @@ def gen_arb(rng, tier, idx=None, soak_in_quick=True):
         case["scenario"] = "slow_target"
         intrs[rng.randrange(n)]["behaviour"] = "patient"
         case["cycles"] = rng.choice([900, 1500])
+    elif x < 0.32 and ("rty" in afeat or "err" in afeat):
+        # the target answers nothing but RTY (or ERR) for a long stretch: a busy flash controller being polled
+        case["scenario"] = "retry_storm"
+        intrs[rng.randrange(n)]["behaviour"] = "patient"
+        case["cycles"] = rng.choice([600, 900])
     if soak == "soak_unanswered":
         # one transfer stays unanswered for more than 2**16 cycles (flash erase, a bridge to a slow bus)
         case.update(scenario="soak_unanswered", cycles=66600, slots=None)
@@ -85,6 +95,9 @@ def gen_arb(rng, tier, idx=None, soak_in_quick=True):
         intrs[k]["behaviour"] = "burster"
         if "lock" not in intrs[k]["features"]:
             intrs[k]["features"].append("lock")
+    if quiet is not None and soak is None:
+        case["quiet"] = quiet
+        case["cycles"] = max(case["cycles"], quiet[1] + 300)
     return case
 
 
@@ -279,6 +292,12 @@ def run_arb_case(case, judged):
             mon.cycle = c
             drive_reset(ctx, c in resets)
             reqs = [drive(i, c) for i in range(n)]
+            if case.get("quiet") and case["quiet"][0] <= c < case["quiet"][1]:
+                # quiet stretch: every initiator idle (request lines low, the rest whatever it was)
+                for i, r in enumerate(reqs):
+                    reqs[i] = dict(r, cyc=0, stb=0, **({"lock": 0} if "lock" in r else {}))
+                    st["hold"][i], st["held"][i] = 0, None
+                mon.count("quiet_cycles")
             for i, r in enumerate(reqs):
                 for k, v in r.items():
                     setv(ctx, getattr(intrs[i], k), v)
@@ -291,6 +310,17 @@ def run_arb_case(case, judged):
             for f in ("err", "rty", "stall"):
                 if f in afeat:
                     resp[f] = rng.getrandbits(1)
+            if case.get("scenario") == "retry_storm":
+                if st.get("storm", 0) > 0:
+                    st["storm"] -= 1
+                    resp["ack"] = 0
+                    kind_ = st["storm_kind"]
+                    for f in ("err", "rty"):
+                        if f in afeat:
+                            resp[f] = int(f == kind_)
+                elif rng.random() < 0.03:
+                    st["storm"] = rng.choice([70, 130, 260])
+                    st["storm_kind"] = rng.choice([f for f in ("rty", "err") if f in afeat])
             if case.get("scenario") == "soak_burst":
                 resp["ack"] = 1
                 for f in ("err", "rty", "stall"):
